@@ -27,6 +27,20 @@ CHECKS = {
             "one-shot keys; edge-cover replay binds L1 to the code; random schedules and a 20-fold stacked burst are recorded "
             "from the code and validated by TLC against P_C06.",
             "5 C06", TECH, BOUNDS + "; one-shot stack bounded to 3 in the exhaustive instances"),
+    "C01": ("model_checking",
+            "TLC checks L1 (Layout.tla, Kanata.tla) composed with the monitor P_C01 (R2: once no physical key is down and the last input "
+            "is Bound(config text) ticks back, nothing is pressed at the OS - keys, raw codes, mouse buttons -, the tick emits nothing "
+            "and kanata reports idle, on every further tick) for every physically consistent schedule within the instance bounds on one "
+            "small instance per feature and per pairwise feature combination (layers, tap-hold variants, one-shot variants, tap-dance, "
+            "chords v1, macros and their cancel forms, fork/switch, overrides, balanced virtual keys, hold-for-duration, on-idle, mouse "
+            "buttons, release-key/layer, rpt); every model transition is replayed on the real code; model counterexamples, burst scripts "
+            "with the real capacities (queue wrap, >64 states, >8 tap-holds, >16 one-shots, >4 macros), hand-written configurations of "
+            "the features outside L1 and random latch-free configurations over the whole action grammar (cfggen) with random consistent "
+            "histories + Bound quiet ticks are recorded from the code and validated by TLC against P_C01.",
+            "5 C01", TECH,
+            BOUNDS + "; stacked one-shots <= 3 and overlapping macros <= 2 in the exhaustive instances; chords v2, defseq modes, zippychord, "
+            "caps-word, unmod, mouse move/scroll, dynamic macros only through recorded traces (exploration); idle not judged for "
+            "configurations that can leave a dynamic-macro recording on; can_block observed, not judged"),
     "C02": ("exploration",
             "Every accepted configuration is run in watched worker subprocesses (panic, abort, stack overflow, a step over the watchdog or "
             "an error returned to the loop = violation; replay = config + history): targeted reproducers and capacity floods, every atom/list "
